@@ -187,22 +187,15 @@ Print Assumptions C09_big_number_refuted.
    If the code changes so that a tie no longer holds, this file no longer checks. *)
 Require Verif.Tie.Pypi.
 Require Verif.Tie.Loops.Pypi.
-Definition C09_tie_pypi_compareInt := Verif.Tie.Pypi.tie_pypi_compareInt.
-Print Assumptions C09_tie_pypi_compareInt.
-Definition C09_tie_pypi_normalizePrereleaseType := Verif.Tie.Pypi.tie_pypi_normalizePrereleaseType.
-Print Assumptions C09_tie_pypi_normalizePrereleaseType.
-Definition C09_tie_pypi_comparePrereleases := Verif.Tie.Pypi.tie_pypi_comparePrereleases.
-Print Assumptions C09_tie_pypi_comparePrereleases.
-Definition C09_tie_pypi_comparePostReleases := Verif.Tie.Pypi.tie_pypi_comparePostReleases.
-Print Assumptions C09_tie_pypi_comparePostReleases.
-Definition C09_tie_pypi_compareDevReleases := Verif.Tie.Pypi.tie_pypi_compareDevReleases.
-Print Assumptions C09_tie_pypi_compareDevReleases.
-Definition C09_tie_pypi_Version_Compare := Verif.Tie.Pypi.tie_pypi_Version_Compare.
-Print Assumptions C09_tie_pypi_Version_Compare.
-Definition C09_tie_loops_pypi_compareReleaseVersions := Verif.Tie.Loops.Pypi.tie_loops_pypi_compareReleaseVersions.
-Print Assumptions C09_tie_loops_pypi_compareReleaseVersions.
-Definition C09_tie_compareReleaseVersions_total_model := Verif.Tie.Loops.Pypi.compareReleaseVersions_total_model.
-Print Assumptions C09_tie_compareReleaseVersions_total_model.
-Definition C09_tie_pypi_compare_closed := Verif.Tie.Loops.Pypi.tie_pypi_compare_closed.
-Print Assumptions C09_tie_pypi_compare_closed.
+Definition C09_tie_pypi_compareInt := @Verif.Tie.Pypi.tie_pypi_compareInt.
+Definition C09_tie_pypi_normalizePrereleaseType := @Verif.Tie.Pypi.tie_pypi_normalizePrereleaseType.
+Definition C09_tie_pypi_comparePrereleases := @Verif.Tie.Pypi.tie_pypi_comparePrereleases.
+Definition C09_tie_pypi_comparePostReleases := @Verif.Tie.Pypi.tie_pypi_comparePostReleases.
+Definition C09_tie_pypi_compareDevReleases := @Verif.Tie.Pypi.tie_pypi_compareDevReleases.
+Definition C09_tie_pypi_Version_Compare := @Verif.Tie.Pypi.tie_pypi_Version_Compare.
+Definition C09_tie_loops_pypi_compareReleaseVersions := @Verif.Tie.Loops.Pypi.tie_loops_pypi_compareReleaseVersions.
+Definition C09_tie_compareReleaseVersions_total_model := @Verif.Tie.Loops.Pypi.compareReleaseVersions_total_model.
+Definition C09_tie_pypi_compare_closed := @Verif.Tie.Loops.Pypi.tie_pypi_compare_closed.
+Definition C09_ties_all := (C09_tie_compareReleaseVersions_total_model, (C09_tie_loops_pypi_compareReleaseVersions, (C09_tie_pypi_Version_Compare, (C09_tie_pypi_compareDevReleases, (C09_tie_pypi_compareInt, (C09_tie_pypi_comparePostReleases, (C09_tie_pypi_comparePrereleases, (C09_tie_pypi_compare_closed, C09_tie_pypi_normalizePrereleaseType)))))))).
+Print Assumptions C09_ties_all.
 (* ====== ties to the source: END ====== *)
